@@ -57,6 +57,9 @@ class Ctx:
             self.obs[k] = {"rule": rule, "key": key, "where": where, "detail": detail, "configs": {}, "nontrivial": nontrivial}
             self.order.append(k)
         o = self.obs[k]
+        prev = o["configs"].get(config)
+        if prev is False or (prev == "undetermined" and ok is True):
+            ok = prev          # a failed / undetermined evaluation of the same instance is never overwritten by a later success
         o["configs"][config] = ok
         if ok is not True and detail:
             o["detail"] = detail
